@@ -73,6 +73,13 @@ def check(ctx):
                 ctx.holds("R2-scaling", construct, f"degrees {tuple(str(g) for g in got)}")
             else:
                 ctx.violated("R2-scaling", construct, f"scaling degrees (x,y,fs) are {tuple(str(g) for g in got)}, the property requires {want}", lhs=x)
+    # the calibrated quantity is the mean of |X|^2 over all K segments: kernel level, all backends (NumPy kernels also with several chunks)
+    from ..kernels import KernelEval, check_kernel, FAMILIES, MODES, BACKENDS
+    KE = KernelEval(ctx.repo)
+    for backend in BACKENDS:
+        for fam in FAMILIES:
+            for mode in MODES:
+                check_kernel(ctx, KE, fam, mode, backend, outputs=("MXX", "MYY"), rule="R4-mean-segment-power")
     # the sums S1, S2 that calibrate a density must be those of the window requested now (memoised windows keyed completely)
     from ..dispatch import check_cache_keys
     check_cache_keys(ctx, rule="R3-window-sums-current", about=("window",))
